@@ -65,13 +65,21 @@ CLIENTS = dict(
 
 N = "len(allocations)"
 # rows are distinct lists created by this call (before the schedule loop)
-ROWS_FRESH = (
-    f"forall(lambda r: implies(0 <= r and r < {N}, ref(allocations[r]) >= NREF0() and ref(allocations[r]) < NREF())) and "
-    f"forall(lambda r, q: implies(0 <= r and r < q and q < {N}, ref(allocations[r]) != ref(allocations[q])))"
-)
-BASE = [f"{N} == max_clients and max_clients >= 1", ROWS_FRESH]
+def rows_fresh(bound):
+    return (
+        f"ref(allocations) >= NREF0() and ref(allocations) < {bound} and "
+        f"forall(lambda r: implies(0 <= r and r < {N}, ref(allocations[r]) >= NREF0() and ref(allocations[r]) < {bound} and ref(allocations[r]) != ref(allocations))) and "
+        f"forall(lambda r, q: implies(0 <= r and r < q and q < {N}, ref(allocations[r]) != ref(allocations[q])))"
+    )
+
+
+ROWS_FRESH = rows_fresh("NREF()")
+BASE1 = [f"{N} == max_clients and max_clients >= 1", ROWS_FRESH]
+# inside the schedule loop: the rows (and the matrix) are older than everything the loop creates
+BASE = [f"{N} == max_clients and max_clients >= 1", rows_fresh("_nentry2")]
 IN_ELEMENT = BASE + [
-    "forall(lambda r: implies(0 <= r and r < max_clients, ref(allocations[r]) < _nentry2))",
+    # a join point names only clients of its own schedule element: the two lists start empty with every element
+    "len(clients_executing_completing_task) + len(any_task_completes_parent) <= COUNTED",
     "ref(clients_executing_completing_task) >= _nentry2 and ref(any_task_completes_parent) >= _nentry2 and ref(clients_executing_completing_task) != ref(any_task_completes_parent)",
     "join_point_id == _i2 + 1",
 ]
@@ -98,12 +106,31 @@ ALLOCATIONS = dict(
         ),
     },
     use=[("L4", "DM", {"c": "_i4", "m": "max_clients"})],
-    externals={"task.clients": CL, "sub_task.clients": CL},
+    externals={
+        "task.clients": CL,
+        "sub_task.clients": CL,
+        # the constructor of an allocation: a fresh object whose fields are the arguments (TaskAllocation.__init__ is under contract below)
+        "TaskAllocation": dict(
+            returns="obj[TaskAllocation]",
+            ensures=["ref(result) >= NREF0() and ref(result.task) == ref(kw_task) and result.client_index_in_task == kw_client_index_in_task and "
+                     "result.global_client_index == kw_global_client_index and result.total_clients == kw_total_clients"],
+        ),
+    },
+    at_call={
+        "TaskAllocation": [
+            # an allocation describes: the leaf task, the client's index within that task (0 .. task.clients-1, each exactly once as the loop
+            # index runs over the task's range), the element-wide client index, and the client count of the whole schedule element
+            "ref(kw_task) == ref(sub_task)",
+            "kw_client_index_in_task == client_index - start_client_index and 0 <= kw_client_index_in_task and kw_client_index_in_task < CL(sub_task)",
+            "kw_global_client_index == client_index",
+            "kw_total_clients == CL(task)",
+        ]
+    },
     locals={"allocations": "list[opt[list[any]]]", "clients_executing_completing_task": "list[int]", "any_task_completes_parent": "list[int]"},
     loops={
         0: dict(modifies_objs=["allocations"], inv=[f"{N} == max_clients", "forall(lambda r: implies(0 <= r and r < _i, ref(allocations[r]) >= NREF0() and ref(allocations[r]) < NREF() and len(allocations[r]) == 0))",
                                                     "forall(lambda r, q: implies(0 <= r and r < q and q < _i, ref(allocations[r]) != ref(allocations[q])))"]),
-        1: dict(modifies_fresh=True, inv=BASE + [
+        1: dict(modifies_fresh=True, inv=BASE1 + [
             "forall(lambda r: implies(0 <= r and r < max_clients, len(allocations[r]) == (1 if r < _i else 0)))",
             "forall(lambda r: implies(0 <= r and r < _i, allocations[r][0] == next_join_point))",
             "ref(next_join_point) >= NREF0() and next_join_point.id == 0"]),
@@ -111,9 +138,9 @@ ALLOCATIONS = dict(
             "forall(lambda r: implies(0 <= r and r < max_clients, len(allocations[r]) == len(allocations[0]))) and len(allocations[0]) >= 1",
             "forall(lambda r: implies(0 <= r and r < max_clients, allocations[r][len(allocations[0]) - 1] == next_join_point))",
             "join_point_id == _i + 1 and ref(next_join_point) >= NREF0() and next_join_point.id == _i"]),
-        3: dict(modifies_fresh=True, inv=IN_ELEMENT + ["start_client_index >= 0", rows_after("start_client_index")]),
-        4: dict(modifies_fresh=True, inv=IN_ELEMENT + ["_i >= 0", rows_after("_i")]),
-        5: dict(modifies_fresh=True, inv=IN_ELEMENT + [
+        3: dict(modifies_fresh=True, inv=[x.replace("COUNTED", "start_client_index") for x in IN_ELEMENT] + ["start_client_index >= 0", rows_after("start_client_index")]),
+        4: dict(modifies_fresh=True, inv=[x.replace("COUNTED", "_i") for x in IN_ELEMENT] + ["_i >= 0 and start_client_index >= 0", rows_after("_i")]),
+        5: dict(modifies_fresh=True, inv=[x for x in IN_ELEMENT if "COUNTED" not in x] + [
             "forall(lambda r: implies(0 <= r and r < max_clients, len(allocations[r]) == at('L5', len(allocations[0])) - (0 if r < _i else 1)))"]),
         6: dict(modifies_fresh=True, inv=BASE + [
             "forall(lambda r: implies(0 <= r and r < max_clients, len(allocations[r]) == at('L6', len(allocations[0])) + (1 if r < _i else 0)))",
@@ -123,11 +150,25 @@ ALLOCATIONS = dict(
     returns="list[list[any]]",
     ensures=[
         # one row per client; the matrix is rectangular; every row ends with the same final join point, whose id is the number of schedule elements
-        "len(result) >= 1",
-        "forall(lambda r: implies(0 <= r and r < len(result), len(result[r]) == len(result[0])))",
+        "len(result) >= 1 and forall(lambda j: implies(0 <= j and j < len(self.schedule), CL(self.schedule[j]) <= len(result)))",
+        "forall(lambda r: implies(0 <= r and r < len(result), len(result[r]) == len(result[0]))) and len(result[0]) >= 1",
+        # all rows end with the SAME final join point
+        "forall(lambda r: implies(0 <= r and r < len(result), result[r][len(result[0]) - 1] == result[0][len(result[0]) - 1]))",
     ],
     cover=["return"],
 )
-import os  # noqa: E402
-
-ALLOC_CONTRACTS = [CLIENTS] + ([ALLOCATIONS] if os.environ.get("VERIF_WIP") else [])  # allocations: work in progress, not claimed yet
+TA_INIT = dict(
+    target="esrally/driver/driver.py::TaskAllocation.__init__",
+    prop="C02",
+    self_type="obj[TaskAllocation]",
+    params={"task": "obj[Task]", "client_index_in_task": "int", "global_client_index": "int", "total_clients": "int"},
+    fields=ALLOC_FIELDS,
+    modules=["esrally/track/track.py"],
+    modifies=["self"],
+    ensures=[
+        # what Allocator.allocations assumes of the constructor
+        "ref(self.task) == ref(task) and self.client_index_in_task == client_index_in_task and self.global_client_index == global_client_index and self.total_clients == total_clients"
+    ],
+    cover=["return"],
+)
+ALLOC_CONTRACTS = [CLIENTS, ALLOCATIONS, TA_INIT]
